@@ -72,7 +72,7 @@ TABLE = [
     ('^backend::format::gen_alt\\|index\\|Index:Vec\\|Iterator::collect\\(.*\\) @ const:[01]$', 'C17',
      'dominated by regexes.len() > 1', 2, ('dom', 'Vec::len$|Vec<T, A>::len$', 'gt1')),
     ('^backend::format::gen_alt\\|index\\|Index:str\\|Cst::source\\(param1\\) @ Range::Range\\{\\.\\.\\}$', 'C17',
-     "end of the first operand's span .. start of the second's: sibling spans are ordered token boundaries of this source", 1),
+     "end of the first operand's span .. start of the second's: sibling spans are ordered token boundaries of this source; needs two distinct operands (regexes.len() > 1), with one operand the range would be reversed", 1, ('dom', 'Vec::len$|Vec<T, A>::len$', 'gt1')),
     ('^backend::format::(gen_file|gen_node)\\|assert:overflow:Sub\\|assert\\|ovf\\(SubWithOverflow\\(str::len\\(Cst::span_text\\(param1\\)\\),const:1\\)\\)$', 'C17',
      'text of a LineComment/DocComment token: the token regex `//[^\\n]*\\n` makes it non-empty', 2),
     ('^backend::format::(gen_file|gen_node)\\|index\\|Index:str\\|Cst::span_text\\(param1\\) @ RangeTo', 'C17',
